@@ -392,6 +392,36 @@ class World:
             elif k == "update":
                 with ctx.updated(*mk(op[1])):
                     await self.block(name)
+            elif k == "prepare":
+                # the block object is made here and now - and entered later, maybe by another task
+                _, kind, sid, states = op
+                self.prepared = (kind, sid, ctx.updated(*mk(states)) if kind == "update" else ctx.scope(f"s{sid}", *mk(states)))
+            elif k == "enterprep":
+                kind, sid, obj = self.prepared
+                before = self.probe()
+                try:
+                    if kind == "ascope":
+                        async with obj:
+                            self._register_group(sid)
+                            self.events.append((name, "body", sid))
+                            await self.block(name)
+                    else:
+                        with obj:
+                            self.events.append((name, "body", sid))
+                            await self.block(name)
+                    self.events.append((name, "left", sid, "return", self.probe() == before))
+                except BaseException as e:  # noqa: BLE001
+                    self.events.append((name, "left", sid, self.classify(e), self.probe() == before))
+                    raise
+            elif k == "reenter":
+                # a second attempt to enter the same async scope object (caught by the code that tries)
+                kind, sid, obj = self.prepared
+                try:
+                    async with obj:
+                        pass
+                    self.events.append((name, "try", "reentered"))
+                except Exception:  # noqa: BLE001  - refused, however (an assertion, the task group's own RuntimeError)
+                    self.events.append((name, "try", "refused"))
             elif k == "try":
                 try:
                     await self.block(name)
